@@ -10,6 +10,7 @@ import CSD.Lemmas.FM17
 import CSD.Lemmas.RPDACIter
 import CSD.Lemmas.PFCRange
 import CSD.Lemmas.RPFC10
+import CSD.Lemmas.HashBlocksIter
 
 namespace CSD.Props.C13
 open CSD CSD.PFC
@@ -133,5 +134,23 @@ theorem fm_iterator_models_match_source_text :
     Generated.body_FMINDEX_extractTable = SourceText.body_FMINDEX_extractTable ∧
     Generated.body_FMIter_next = SourceText.body_FMIter_next ∧
     Generated.body_FMIterDup_next = SourceText.body_FMIterDup_next := ⟨rfl, rfl, rfl⟩
+
+/-! ### HASHRPDACBlocks -/
+
+/-- **The table scan of the blocks dictionary** (`IteratorDictStringHRPDACBlocks`: part after part, local IDs
+`1 … size of the part`, `to_index() − starting_indexes[partIdx]` as the size) yields exactly
+`extract(1), …, extract(n)` — `numElements` strings, the `k`-th being `extract(k)` — and `hasNext` is false
+afterwards; for every cut size, every table-size function and every non-empty input. -/
+theorem blocks_table_scan_exact (cutSize : Nat) (tsizeOf : Nat → Nat) (S : List Str) (hne : S ≠ []) :
+    Hash.tableBlocks (Hash.buildBlocks cutSize tsizeOf S) =
+      some ((List.range S.length).map fun i => Hash.extractBlocks (Hash.buildBlocks cutSize tsizeOf S) (i + 1)) :=
+  Hash.tableBlocks_build cutSize tsizeOf S hne
+
+/-- The blocks iterator model was written against the current text of the C++ functions it mirrors. -/
+theorem blocks_iterator_models_match_source_text :
+    Generated.body_Blocks_extractTable = SourceText.body_Blocks_extractTable ∧
+    Generated.body_BlocksIter_to_index = SourceText.body_BlocksIter_to_index ∧
+    Generated.body_BlocksIter_hasNext = SourceText.body_BlocksIter_hasNext ∧
+    Generated.body_BlocksIter_next = SourceText.body_BlocksIter_next := ⟨rfl, rfl, rfl, rfl⟩
 
 end CSD.Props.C13
